@@ -165,6 +165,47 @@ func enumTable(p *core.Program, fd *core.FuncDecl, e ast.Expr, depth int) (*type
 			}
 			return nil, -1
 		}
+		// a list filled in a loop over the table: `for … range TABLE { v = append(v, …) }`
+		if defs := core.NewLocalDefs(info, fd.Decl.Body).All(v); len(defs) > 1 {
+			var tv *types.Var
+			pi, okAll, nApp := -1, true, 0
+			for _, d := range defs {
+				if d.RHS == nil {
+					continue
+				}
+				var t *types.Var
+				i := -1
+				if ap, isCall := ast.Unparen(d.RHS).(*ast.CallExpr); isCall && len(ap.Args) >= 1 && core.VarOf(info, ap.Args[0]) == v {
+					if id, isId := ap.Fun.(*ast.Ident); !isId || id.Name != "append" {
+						okAll = false
+						break
+					}
+					nApp++
+					var rs *ast.RangeStmt
+					ast.Inspect(fd.Decl.Body, func(m ast.Node) bool {
+						if r, isR := m.(*ast.RangeStmt); isR && r.Body.Pos() <= d.Pos && d.Pos <= r.Body.End() {
+							rs = r
+						}
+						return true
+					})
+					if rs == nil {
+						okAll = false
+						break
+					}
+					t, i = enumTable(p, fd, rs.X, depth+1)
+				} else {
+					t, i = enumTable(p, fd, d.RHS, depth+1)
+				}
+				if (t == nil && i < 0) || (tv != nil && t != tv) || (pi >= 0 && i != pi) {
+					okAll = false
+					break
+				}
+				tv, pi = t, i
+			}
+			if okAll && nApp > 0 {
+				return tv, pi
+			}
+		}
 		srcs := valueSources(info, core.NewLocalDefs(info, fd.Decl.Body), x, 0)
 		var tv *types.Var
 		pi := -1
@@ -182,7 +223,11 @@ func enumTable(p *core.Program, fd *core.FuncDecl, e ast.Expr, depth int) (*type
 	case *ast.CallExpr:
 		if id, ok := ast.Unparen(x.Fun).(*ast.Ident); ok {
 			if _, isB := info.Uses[id].(*types.Builtin); isB && id.Name == "make" && len(x.Args) >= 2 {
-				if ln, ok := ast.Unparen(x.Args[1]).(*ast.CallExpr); ok && len(ln.Args) == 1 {
+				sizeArg := x.Args[1]
+				if tv0, isC := info.Types[x.Args[1]]; isC && tv0.Value != nil && len(x.Args) == 3 {
+					sizeArg = x.Args[2] // make(T, 0, len(TABLE)): filled by appends
+				}
+				if ln, ok := ast.Unparen(sizeArg).(*ast.CallExpr); ok && len(ln.Args) == 1 {
 					if lid, ok := ast.Unparen(ln.Fun).(*ast.Ident); ok && lid.Name == "len" {
 						return enumTable(p, fd, ln.Args[0], depth+1)
 					}
@@ -401,6 +446,9 @@ func c11SkipPattern(c *core.Ctx) {
 				}
 				n++
 				skip := ""
+				if fr.Cond != nil {
+					skip = "a condition on the listing itself (" + types.ExprString(fr.Cond) + ")"
+				}
 				for _, r := range fr.Rules {
 					r = ast.Unparen(r)
 					if core.IsValidationVar(info, r, "Skip") {
